@@ -2,6 +2,7 @@ import WpModel.Model.Wire
 import WpModel.Model.Positioned
 import WpModel.Model.FixedPages
 import WpModel.Drive.Floats
+import WpModel.Drive.Absolute
 
 namespace Wp.Drive.Positioned
 open Wp Wp.Positioned
@@ -69,6 +70,11 @@ def handle (cmd : String) (args : List Sx) : Option String :=
       | .ok l => "(" ++ " ".intercalate (l.map fun (i, x, y) =>
           "(" ++ toString i ++ " " ++ showRat x ++ " " ++ showRat y ++ ")") ++ ")"
       | .error e => errStr e))
+  | "fixedkept", [own, pb, vb, cby, cbh, .list hs] => do
+    -- `fixedkept <own page?> <page_bottom> <vbox> <cb_y> <cb_h> (<child heights>)` → children in the fragment
+    let own ← own.bool?
+    pure (toString (fixedKept (if own then some 0 else none) (← pb.rat?) (← Wp.Drive.Absolute.vbox? vb)
+      (← cby.rat?) (← cbh.rat?) (← allSome Sx.rat? hs)))
   | _, _ => none
 
 end Wp.Drive.Positioned
